@@ -44,12 +44,14 @@ structure RuleData where
   allSyscalls : Bool := true
   explicitAll : Bool := false
   syscalls : List Nat := []
-  fields : List Nat := []
-  values : List Nat := []
-  fieldFlags : List Nat := []
+  trips : List (Nat × Nat × Nat) := []   -- (field, value, operator): Go keeps three parallel slices
   strings : List Bytes := []
   arch : Bytes := []
 deriving Repr, DecidableEq, Inhabited
+
+def RuleData.fields (r : RuleData) : List Nat := r.trips.map (·.1)
+def RuleData.values (r : RuleData) : List Nat := r.trips.map (·.2.1)
+def RuleData.fieldFlags (r : RuleData) : List Nat := r.trips.map (·.2.2)
 
 def runtimeArch : Bytes := ofString "x86_64"
 
@@ -164,7 +166,7 @@ def addFilter (env : Env) (r : RuleData) (lhs op rhs : Bytes) : Option RuleData 
   | some opc, some f =>
     if r.flags == LA.Gen.RuleTables.excludeFilter && !(excludeOkFields.contains f) then none else
     let done (r : RuleData) (v : Nat) : Option RuleData :=
-      some { r with values := r.values ++ [v], fields := r.fields ++ [f], fieldFlags := r.fieldFlags ++ [opc] }
+      some { r with trips := r.trips ++ [(f, v, opc)] }
     if uidFields.contains f then (getUID env rhs).bind (done r)
     else if gidFields.contains f then (getGID env rhs).bind (done r)
     else if f == LA.Gen.RuleTables.exitField then
@@ -209,7 +211,7 @@ def addInterField (r : RuleData) (lhs op rhs : Bytes) : Option RuleData :=
       if !(LA.Gen.RuleTables.comparisonsTable.any (fun e => e.1 == lf)) then none else
       match lookupComparison lf rf with
       | none => none
-      | some c => some { r with fields := r.fields ++ [LA.Gen.RuleTables.fieldCompare], fieldFlags := r.fieldFlags ++ [opc], values := r.values ++ [c] }
+      | some c => some { r with trips := r.trips ++ [(LA.Gen.RuleTables.fieldCompare, c, opc)] }
     | _, _ => none
 
 def addSyscall (r : RuleData) (sc : Bytes) : Option RuleData :=
@@ -395,7 +397,7 @@ def fromArd (a : Ard) : Res RuleData :=
   let (fs, vs, ops, ss) ← decodeFields a a.fieldCount 0 0
   Res.ok { flags := a.flags, action := a.action, allSyscalls := allSys,
            syscalls := if allSys then [] else syscallsOfMask a.mask,
-           fields := fs, values := vs, fieldFlags := ops, strings := ss }
+           trips := List.zip fs (List.zip vs ops), strings := ss }
 
 /-! ### ToCommandLine -/
 
